@@ -98,12 +98,12 @@ func iterateShared(fn subscription.IterateFn, options subscription.IterationOpti
 	}
 	// 查询指定clientID下的所有topic
 	if options.ClientID != "" {
-		for _, v := range index[options.ClientID] {
-			for _, c := range v.shared {
-				if sub, ok := c[options.ClientID]; ok {
-					if !fn(options.ClientID, sub) {
-						return false
-					}
+		for k, v := range index[options.ClientID] {
+			// the shared index is keyed by shareName/topicFilter
+			shareName := strings.SplitN(k, "/", 2)[0]
+			if sub, ok := v.shared[shareName][options.ClientID]; ok {
+				if !fn(options.ClientID, sub) {
+					return false
 				}
 			}
 		}
@@ -271,10 +271,13 @@ func (db *TrieDB) SubscribeLocked(clientID string, subscriptions ...*gmqtt.Subsc
 	rs := make(subscription.SubscribeResult, len(subscriptions))
 	for k, sub := range subscriptions {
 		topicName := sub.TopicFilter
+		indexKey := topicName
 		rs[k].Subscription = sub
 		if sub.ShareName != "" {
 			node = db.sharedTrie.subscribe(clientID, sub)
 			index = db.sharedIndex
+			// the shared index is keyed by shareName/topicFilter
+			indexKey = sub.ShareName + "/" + topicName
 		} else if isSystemTopic(topicName) {
 			node = db.systemTrie.subscribe(clientID, sub)
 			index = db.systemIndex
@@ -288,7 +291,7 @@ func (db *TrieDB) SubscribeLocked(clientID string, subscriptions ...*gmqtt.Subsc
 				db.clientStats[clientID] = &subscription.Stats{}
 			}
 		}
-		if _, ok := index[clientID][topicName]; !ok {
+		if _, ok := index[clientID][indexKey]; !ok {
 			db.stats.SubscriptionsTotal++
 			db.stats.SubscriptionsCurrent++
 			db.clientStats[clientID].SubscriptionsTotal++
@@ -296,7 +299,7 @@ func (db *TrieDB) SubscribeLocked(clientID string, subscriptions ...*gmqtt.Subsc
 		} else {
 			rs[k].AlreadyExisted = true
 		}
-		index[clientID][topicName] = node
+		index[clientID][indexKey] = node
 	}
 	return rs
 }
@@ -315,9 +318,11 @@ func (db *TrieDB) UnsubscribeLocked(clientID string, topics ...string) {
 	for _, topic := range topics {
 		var shareName string
 		shareName, topic := subscription.SplitTopic(topic)
+		indexKey := topic
 		if shareName != "" {
 			topicTrie = db.sharedTrie
 			index = db.sharedIndex
+			indexKey = shareName + "/" + topic
 		} else if isSystemTopic(topic) {
 			index = db.systemIndex
 			topicTrie = db.systemTrie
@@ -326,11 +331,11 @@ func (db *TrieDB) UnsubscribeLocked(clientID string, topics ...string) {
 			topicTrie = db.userTrie
 		}
 		if _, ok := index[clientID]; ok {
-			if _, ok := index[clientID][topic]; ok {
+			if _, ok := index[clientID][indexKey]; ok {
 				db.stats.SubscriptionsCurrent--
 				db.clientStats[clientID].SubscriptionsCurrent--
 			}
-			delete(index[clientID], topic)
+			delete(index[clientID], indexKey)
 		}
 		topicTrie.unsubscribe(clientID, topic, shareName)
 	}
@@ -344,26 +349,28 @@ func (db *TrieDB) Unsubscribe(clientID string, topics ...string) error {
 	return nil
 }
 
-func (db *TrieDB) unsubscribeAll(index map[string]map[string]*topicNode, clientID string) {
+func (db *TrieDB) unsubscribeAll(index map[string]map[string]*topicNode, trie *topicTrie, clientID string) {
 	db.stats.SubscriptionsCurrent -= uint64(len(index[clientID]))
 	if db.clientStats[clientID] != nil {
 		db.clientStats[clientID].SubscriptionsCurrent -= uint64(len(index[clientID]))
 	}
-	for topicName, node := range index[clientID] {
-		delete(node.clients, clientID)
-		if len(node.clients) == 0 && len(node.children) == 0 {
-			ss := strings.Split(topicName, "/")
-			delete(node.parent.children, ss[len(ss)-1])
+	for topicName := range index[clientID] {
+		var shareName string
+		if trie == db.sharedTrie {
+			// the shared index is keyed by shareName/topicFilter
+			ss := strings.SplitN(topicName, "/", 2)
+			shareName, topicName = ss[0], ss[1]
 		}
+		trie.unsubscribe(clientID, topicName, shareName)
 	}
 	delete(index, clientID)
 }
 
 // UnsubscribeAllLocked is the non thread-safe version of UnsubscribeAll
 func (db *TrieDB) UnsubscribeAllLocked(clientID string) {
-	db.unsubscribeAll(db.userIndex, clientID)
-	db.unsubscribeAll(db.systemIndex, clientID)
-	db.unsubscribeAll(db.sharedIndex, clientID)
+	db.unsubscribeAll(db.userIndex, db.userTrie, clientID)
+	db.unsubscribeAll(db.systemIndex, db.systemTrie, clientID)
+	db.unsubscribeAll(db.sharedIndex, db.sharedTrie, clientID)
 }
 
 // UnsubscribeAll delete all subscriptions of the client
